@@ -6,64 +6,64 @@ import json, subprocess, sys
 
 CLAIMS = {
  # id: (level text, level note, technique)
- "C01": ("structural necessary conditions decided over all paths: lock discipline on trie nodes/count for every accessor (the all-interleavings clause), count +/- only under AddUnique/Remove success, pruning guarded by emptiness of the detached node and performed upward, pooled share-group list reset per iteration, matcher exhaustiveness (wildcard / multi-wildcard / share branch, query[1:] recursion); integrity of the per-subscriber counter chains that gate Trie.Unsubscribe (R11); the matching relation over hashed words is not decided",
+ "C01": ("structural necessary conditions decided over all paths: lock discipline on trie nodes/count for every accessor (the all-interleavings clause), count +/- only under AddUnique/Remove success, pruning guarded by emptiness of the detached node and performed upward, pooled share-group list reset per iteration, matcher exhaustiveness (wildcard / multi-wildcard / share branch, query[1:] recursion); integrity of the per-subscriber counter chains that gate Trie.Unsubscribe (R11); no unclassified mutable state added to the types/packages the property rests on (rule C01.S, pinned symbol table); the matching relation over hashed words is not decided",
          "trusts go/ssa, VTA call graph for the t.lookup method value; 32-bit hash collisions of subscriber ids are outside the rules",
          "static analysis: must-held lockset dataflow + requires-propagation, SSA guard cut-sets, must-pass-through"),
- "C02": ("structural necessary conditions over all paths/call sites: fold-keyed maps confirm full-ssid equality (the permuted/repeated-filter clause), every state-changing call of the three MQTT handlers is cut off by channel-valid, authorised and not-extendable, failure exits return an error, SUBACK/UNSUBACK/error replies follow on every path, the trie is only reachable through the per-connection bookkeeping, self-exclusion filter shape; collision-chain integrity of the counters (slot dropped only for a single-entry chain, re-link, bypass), who-may-call on the per-connection bookkeeping, link request decoded into a zero value; delivery multiplicities and payload equality are not decided",
+ "C02": ("structural necessary conditions over all paths/call sites: fold-keyed maps confirm full-ssid equality (the permuted/repeated-filter clause), every state-changing call of the three MQTT handlers is cut off by channel-valid, authorised and not-extendable, failure exits return an error, SUBACK/UNSUBACK/error replies follow on every path, the trie is only reachable through the per-connection bookkeeping, self-exclusion filter shape; collision-chain integrity of the counters (slot dropped only for a single-entry chain, re-link, bypass), who-may-call on the per-connection bookkeeping, link request decoded into a zero value; no unclassified mutable state added to the types/packages the property rests on (rule C02.S, pinned symbol table); delivery multiplicities and payload equality are not decided",
          "trusts go/ssa; purity of security.Key accessors; VTA for who-may-call",
          "static analysis: identity-key (permutation-invariant fold) rule, SSA guard cut-sets, must-pass-through, who-may-call"),
- "C03": ("structural necessary conditions decided over all paths and call sites: guard cut-sets on Authorize and on every Authorize call site, permission table, Validate conjuncts, tenant binding of ssids; the bytes of the key handed out alias only buffers allocated during the call (whole decrypt chain), one accepted spelling per key (decode table), key predicate normal forms (HasPermission/IsMaster/IsExpired/SetPermission); the bit-path/hash arithmetic of key targets is not decided",
+ "C03": ("structural necessary conditions decided over all paths and call sites: guard cut-sets on Authorize and on every Authorize call site, permission table, Validate conjuncts, tenant binding of ssids; the bytes of the key handed out alias only buffers allocated during the call (whole decrypt chain), one accepted spelling per key (decode table), key predicate normal forms (HasPermission/IsMaster/IsExpired/SetPermission); contract refresh always stores the fresh answer; key text reaches the cipher unchanged; no unclassified mutable state added to the types/packages the property rests on (rule C03.S, pinned symbol table); the bit-path/hash arithmetic of key targets is not decided",
          "trusts go/types, go/ssa (x/tools v0.29.0) and the hand-confirmed rule tables in checker/rules; accessor purity of security.Key",
          "static analysis: SSA guard cut-sets (dominance/reachability), call-site table"),
- "C04": ("structural necessary conditions decided on every path of the merge code: LWW kernel of both crdt.Map implementations (overwrite only with the remote time, only under strict local<remote, always then; no aliasing of the remote slice), Add/Del guarded by the clock, value predicates as comparison normal forms (add bias on ties), accessor byte ranges, codec wire layouts of both backends, Volatile lock discipline incl. both locks in Merge; commutativity/associativity over histories is not decided",
+ "C04": ("structural necessary conditions decided on every path of the merge code: LWW kernel of both crdt.Map implementations (overwrite only with the remote time, only under strict local<remote, always then; no aliasing of the remote slice), Add/Del guarded by the clock, value predicates as comparison normal forms (add bias on ties), accessor byte ranges, codec wire layouts of both backends, Volatile lock discipline incl. both locks in Merge; Add/Del never return before comparing stamps; Range is a full scan filtered by prefix; no unclassified mutable state added to the types/packages the property rests on (rule C04.S, pinned symbol table); commutativity/associativity over histories is not decided",
          "trusts go/ssa; purity of crdt.Value accessors; kelindar/binary string/slice layout",
          "static analysis: SSA guard cut-sets two-sided (only-if + if), comparison normal forms, codec op-sequence extraction, lockset dataflow"),
- "C13": ("structural necessary conditions: delta side of both merge kernels (zero exactly when not new, delete iff IsZero, keep otherwise), State.Merge nil/delta decision and accumulation over all subsets, pass-through of the delta by Swarm.merge/OnGossip/OnGossipBroadcast, and the mesh.GossipData.Merge return-value contract checked for every implementation (State.Merge violates it: recorded known finding); relay termination is not decided",
+ "C13": ("structural necessary conditions: delta side of both merge kernels (zero exactly when not new, delete iff IsZero, keep otherwise), State.Merge nil/delta decision and accumulation over all subsets, pass-through of the delta by Swarm.merge/OnGossip/OnGossipBroadcast, and the mesh.GossipData.Merge return-value contract checked for every implementation (State.Merge violates it: recorded known finding); no unclassified mutable state added to the types/packages the property rests on (rule C13.S, pinned symbol table); relay termination is not decided",
          "trusts go/ssa; the mesh contract was read from the vendored weaveworks/mesh source",
          "static analysis: SSA guard cut-sets two-sided, return-value provenance, interface-contract rule"),
- "C05": ("structural necessary conditions: identity-key rule on the per-peer counters, Swarm.merge drives the routing callbacks from the in-place delta (two-sided guards IsAdded/IsRemoved ∧ counter transition ∧ active), Notify symmetry and synchronous broadcast on every path, offline cleanup, local-only fan-out of forwarded messages, GossipData.Merge contract (known finding); per-peer counters move only in the merge callback, the deadPeer stand-in is found by id (no type filter), the lost peer's own key is deleted before handlers can re-stamp the event; quiescence and transport schedules are not decided",
+ "C05": ("structural necessary conditions: identity-key rule on the per-peer counters, Swarm.merge drives the routing callbacks from the in-place delta (two-sided guards IsAdded/IsRemoved ∧ counter transition ∧ active), Notify symmetry and synchronous broadcast on every path, offline cleanup, local-only fan-out of forwarded messages, GossipData.Merge contract (known finding); per-peer counters move only in the merge callback, the deadPeer stand-in is found by id (no type filter), the lost peer's own key is deleted before handlers can re-stamp the event; counter update independent of peer activity; Range full scan (SubscriptionsOf); no unclassified mutable state added to the types/packages the property rests on (rule C05.S, pinned symbol table); quiescence and transport schedules are not decided",
          "trusts go/ssa; callbacks are those assigned in broker.NewService",
          "static analysis: SSA guard cut-sets two-sided, must-pass-through, identity-key rule, interface-contract rule"),
- "C08": ("structural necessary conditions: the per-connection goroutine defers Close itself before reading and Close recovers in its own frame; every path through Close unsubscribes each counter, fires the will exactly once outside the loop, closes the socket; Close has a single (deferred) call site; identity-key rule on the per-connection counters; OnLastWill nil-safe, authorised, not extendable; who-may-call on the per-connection bookkeeping, presence notification rules (exactly one blocking notification per transition); observable cleanup counts are not decided",
+ "C08": ("structural necessary conditions: the per-connection goroutine defers Close itself before reading and Close recovers in its own frame; every path through Close unsubscribes each counter, fires the will exactly once outside the loop, closes the socket; Close has a single (deferred) call site; identity-key rule on the per-connection counters; OnLastWill nil-safe, authorised, not extendable; who-may-call on the per-connection bookkeeping, presence notification rules (exactly one blocking notification per transition); no unclassified mutable state added to the types/packages the property rests on (rule C08.S, pinned symbol table); observable cleanup counts are not decided",
          "trusts go/ssa",
          "static analysis: must-pass-through, who-may-call, SSA guard cut-sets, identity-key rule"),
- "C14": ("structural necessary conditions: ban lookup cuts off decryption and success in Authorize; cache-coherence rule for the durable set (every store write is followed by invalidation of that key's cache entry on every path, propagated to callers up to the exported API); keyban handler two-sided guards and authorisation; on-disk location and close chain of the ban set; Notify ordering; expiry only for tombstones; one accepted spelling per key (bans are by text), no deletion from the durable set, request decoded into a zero value; fsync policy and cross-broker timing are not decided",
+ "C14": ("structural necessary conditions: ban lookup cuts off decryption and success in Authorize; cache-coherence rule for the durable set (every store write is followed by invalidation of that key's cache entry on every path, propagated to callers up to the exported API); keyban handler two-sided guards and authorisation; on-disk location and close chain of the ban set; Notify ordering; expiry only for tombstones; one accepted spelling per key (bans are by text), no deletion from the durable set, request decoded into a zero value; read cache keyed by the item itself; key text unchanged to the cipher; no unclassified mutable state added to the types/packages the property rests on (rule C14.S, pinned symbol table); fsync policy and cross-broker timing are not decided",
          "trusts go/ssa; freecache/buntdb API contracts",
          "static analysis: must-pass-through with call-graph propagation (coherence), SSA guard cut-sets two-sided, reachability"),
- "C06": ("structural necessary conditions: every append of the storage scan is cut off by ID.Match, HasPrefix, Valid, the limit and the size cap; Query always ends in Frame.Limit; ID.Match compares every query word including the contract word at the right offsets and rejects short ids (tenant isolation under the colliding XOR prefix); entry key/value/expiry provenance; id layout agreement of writers and readers; sort/limit and window comparison normal forms; continuation Seek+Next; lookupQuery.Limit write-set, request decoded into a zero value; which messages exist at run time is not decided",
+ "C06": ("structural necessary conditions: every append of the storage scan is cut off by ID.Match, HasPrefix, Valid, the limit and the size cap; Query always ends in Frame.Limit; ID.Match compares every query word including the contract word at the right offsets and rejects short ids (tenant isolation under the colliding XOR prefix); entry key/value/expiry provenance; id layout agreement of writers and readers; sort/limit and window comparison normal forms; continuation Seek+Next; lookupQuery.Limit write-set, request decoded into a zero value; every return of Query lies behind the survey decision; no unclassified mutable state added to the types/packages the property rests on (rule C06.S, pinned symbol table); which messages exist at run time is not decided",
          "trusts go/ssa; badger iterator/key-order semantics; encoding/binary",
          "static analysis: SSA guard cut-sets, loop induction-variable range analysis, affine offset tables, comparison normal forms, must-pass-through"),
- "C07": ("structural necessary conditions: Store exactly under Stored ∧ AllowStore ∧ authorised (two-sided), once, for the message built for the request; TTL write set (retain marker / ttl option, two-sided); history Query exactly under AllowLoad, synchronous, with the subscribed ssid, channel window and last-or-1 limit; replay inside the handler and SUBACK after it; retention mapping in SSD.Store; lookupQuery.Limit write-set; replay contents are not decided",
+ "C07": ("structural necessary conditions: Store exactly under Stored ∧ AllowStore ∧ authorised (two-sided), once, for the message built for the request; TTL write set (retain marker / ttl option, two-sided); history Query exactly under AllowLoad, synchronous, with the subscribed ssid, channel window and last-or-1 limit; replay inside the handler and SUBACK after it; retention mapping in SSD.Store; lookupQuery.Limit write-set; every acknowledged subscribe reaches the replay decision; Query always surveys; typed-nil gossiper safety (stand-alone brokers); no unclassified mutable state added to the types/packages the property rests on (rule C07.S, pinned symbol table); replay contents are not decided",
          "trusts go/ssa; accessor purity",
          "static analysis: SSA guard cut-sets two-sided, write-set dataflow, argument provenance, no-goroutine / must-pass-through ordering"),
- "C10": ("structural necessary conditions: lock discipline on the write queue with write+reset of the queue in one write-locked section; write-once linearity of listener.Conn.Write; every one of the 14 encoders hands its writer exactly one Write per path and uses it for nothing else; pooled buffer Get/deferred Put; size refusal before the fixed-buffer copy; websocket write under its mutex; no goroutine/channel hand-off anywhere on the publish-to-transport path; pool hygiene for the packet buffers (nothing derived from a pooled buffer used after Put or outliving a deferred Put); the arrival order itself is not decided",
+ "C10": ("structural necessary conditions: lock discipline on the write queue with write+reset of the queue in one write-locked section; write-once linearity of listener.Conn.Write; every one of the 14 encoders hands its writer exactly one Write per path and uses it for nothing else; pooled buffer Get/deferred Put; size refusal before the fixed-buffer copy; websocket write under its mutex; no goroutine/channel hand-off anywhere on the publish-to-transport path; pool hygiene for the packet buffers (nothing derived from a pooled buffer used after Put or outliving a deferred Put); no unclassified mutable state added to the types/packages the property rests on (rule C10.S, pinned symbol table); the arrival order itself is not decided",
          "trusts go/ssa; atomicity of one Write on the underlying connection",
          "static analysis: lockset dataflow, linearity (exactly-once) path analysis, use-set of the writer parameter, effect (go/send/select) scan"),
- "C17": ("structural necessary conditions: write-queue rules of C10; sniffer replay window, advance-by-copied, record-exactly-when-sniffing, reset; serve rewinds before hand-off exactly on the matched path; websocket reader dropped exactly at io.EOF, next message only when none is current, data frames only, reads into the caller's buffer; chunking arithmetic for all inputs is not decided",
+ "C17": ("structural necessary conditions: write-queue rules of C10; sniffer replay window, advance-by-copied, record-exactly-when-sniffing, reset; serve rewinds before hand-off exactly on the matched path; websocket reader dropped exactly at io.EOF, next message only when none is current, data frames only, reads into the caller's buffer; no unclassified mutable state added to the types/packages the property rests on (rule C17.S, pinned symbol table); chunking arithmetic for all inputs is not decided",
          "trusts go/ssa; bytes.Buffer and gorilla/websocket contracts",
          "static analysis: SSA guard cut-sets two-sided, store/argument provenance, dominance ordering, lockset dataflow"),
- "C11": ("structural necessary conditions: CreateKey/ExtendKey guard cut-sets (who may mint, SetTarget must succeed before encryption), provenance of copied fields and of target/expiry arguments, ordering of permission writes (master bit cleared last; extend cleared then AND with the request, nothing after), bit-subset analysis of access(), sibling rule that no read/write handler accepts an extendable key, permission accessor normal forms; salts drawn from crypto/rand, request decoded into a zero value, key predicate normal forms; the runtime authority of the minted key is not decided",
+ "C11": ("structural necessary conditions: CreateKey/ExtendKey guard cut-sets (who may mint, SetTarget must succeed before encryption), provenance of copied fields and of target/expiry arguments, ordering of permission writes (master bit cleared last; extend cleared then AND with the request, nothing after), bit-subset analysis of access(), sibling rule that no read/write handler accepts an extendable key, permission accessor normal forms; salts drawn from crypto/rand, request decoded into a zero value, key predicate normal forms; no unclassified mutable state added to the types/packages the property rests on (rule C11.S, pinned symbol table); the runtime authority of the minted key is not decided",
          "trusts go/ssa; security.Key setters write only their field",
          "static analysis: SSA guard cut-sets, argument provenance, write-order dominance, constant bit-set analysis, sibling cross-check"),
- "C12": ("integrity-before-trust rule over every license.Cipher implementation: search of DecryptKey's reachable code for an authenticity primitive; all three ciphers lack one (three recorded known findings, design-level); the remaining tamper evidence (contract.Validate conjuncts and its presence on every Authorize success path) is checked; a new unauthenticated cipher or a weakened Validate is a new violation; salts of minted keys drawn from crypto/rand; acceptance probabilities are not decided",
+ "C12": ("integrity-before-trust rule over every license.Cipher implementation: search of DecryptKey's reachable code for an authenticity primitive; all three ciphers lack one (three recorded known findings, design-level); the remaining tamper evidence (contract.Validate conjuncts and its presence on every Authorize success path) is checked; a new unauthenticated cipher or a weakened Validate is a new violation; salts of minted keys drawn from crypto/rand; one accepted spelling per key (decode table, key text unchanged to the cipher); no unclassified mutable state added to the types/packages the property rests on (rule C12.S, pinned symbol table); acceptance probabilities are not decided",
          "list of authenticity primitives; go/ssa; in-scope call graph",
          "static analysis: call-graph reachability of authenticity primitives, SSA guard cut-sets, comparison normal form"),
- "C15": ("structural necessary conditions: no error of the badger write API is dropped; Store acknowledges exactly the result of one synchronous DB.Update in which every entry is set (no asynchronous commit, no goroutine); Configure opens the configured directory on disk and nothing on the configure path deletes/truncates files; Close chain; entry key/value/expiry provenance; per-process id nonce drawn from crypto/rand; badger's own recovery is not decided",
+ "C15": ("structural necessary conditions: no error of the badger write API is dropped; Store acknowledges exactly the result of one synchronous DB.Update in which every entry is set (no asynchronous commit, no goroutine); Configure opens the configured directory on disk and nothing on the configure path deletes/truncates files; Close chain; entry key/value/expiry provenance; per-process id nonce drawn from crypto/rand; no unclassified mutable state added to the types/packages the property rests on (rule C15.S, pinned symbol table); badger's own recovery is not decided",
          "badger DB.Update commits synchronously (library contract); go/ssa",
          "static analysis: error-discipline rule, return-value provenance, effect scan over the in-scope call graph, must-pass-through"),
- "C18": ("structural necessary conditions: exactly one notifier call per admitted subscribe/unsubscribe (after the trie insert), broker notifier maps to the right presence event for direct subscribers; presence.Notify is a single blocking send and the queue has one consumer publishing synchronously (order preservation); status lookup is the unfiltered trie lookup reporting id/username of connections; changes enable/cancel go through PubSub with the same presence-ssid event; request decoded into a zero value; the notification stream as a function of history is not decided",
+ "C18": ("structural necessary conditions: exactly one notifier call per admitted subscribe/unsubscribe (after the trie insert), broker notifier maps to the right presence event for direct subscribers; presence.Notify is a single blocking send and the queue has one consumer publishing synchronously (order preservation); status lookup is the unfiltered trie lookup reporting id/username of connections; changes enable/cancel go through PubSub with the same presence-ssid event; request decoded into a zero value; typed-nil gossiper safety; counter-chain integrity; no unclassified mutable state added to the types/packages the property rests on (rule C18.S, pinned symbol table); the notification stream as a function of history is not decided",
          "Go channel FIFO; go/ssa",
          "static analysis: SSA guard cut-sets two-sided, effect scan (go/select/send), single-consumer count over the call graph, argument provenance"),
- "C19": ("structural necessary conditions: message codec field order/widths on both sides and error discipline of the decoder; id layout table of NewID against its readers (inverted atomic sequence, nonce, word offsets, length); Peer.frame lock discipline with a fresh queue on swap and append on Send; send loop sends each Split chunk once in order and only stops on an empty chunk; Split counts all variable fields, only splits at i>0, returns f[:i]/f[i:]; per-process id nonce drawn from crypto/rand, pool hygiene for the pooled encoders; id uniqueness across processes is not decided",
+ "C19": ("structural necessary conditions: message codec field order/widths on both sides and error discipline of the decoder; id layout table of NewID against its readers (inverted atomic sequence, nonce, word offsets, length); Peer.frame lock discipline with a fresh queue on swap and append on Send; send loop sends each Split chunk once in order and only stops on an empty chunk; Split counts all variable fields, only splits at i>0, returns f[:i]/f[i:]; per-process id nonce drawn from crypto/rand, pool hygiene for the pooled encoders; one serial flusher per peer; no unclassified mutable state added to the types/packages the property rests on (rule C19.S, pinned symbol table); id uniqueness across processes is not decided",
          "trusts go/ssa; kelindar/binary primitives; sync/atomic",
          "static analysis: codec op-sequence tables, affine offset tables, lockset dataflow, allocation freshness, SSA guard cut-sets, loop-exit analysis"),
- "C20": ("structural necessary conditions: every fixed-offset access in the license parsers is covered by a dominating length test; Parse strips exactly the dispatched two-character suffix; sibling agreement of the three DecryptKey (32-byte refusal before decode, decode error returned, key = decoded prefix) and EncryptKey (RawURLEncoding of 24 bytes); V1 writer/reader byte-range table and version suffixes; the base64 table accepts exactly the URL-safe alphabet and unknown bytes are an error; cipher objects written only while constructed (no memo/state in DecryptKey/EncryptKey); cipher bijectivity is not decided",
+ "C20": ("structural necessary conditions: every fixed-offset access in the license parsers is covered by a dominating length test; Parse strips exactly the dispatched two-character suffix; sibling agreement of the three DecryptKey (32-byte refusal before decode, decode error returned, key = decoded prefix) and EncryptKey (RawURLEncoding of 24 bytes); V1 writer/reader byte-range table and version suffixes; the base64 table accepts exactly the URL-safe alphabet and unknown bytes are an error; cipher objects written only while constructed (no memo/state in DecryptKey/EncryptKey); no unclassified mutable state added to the types/packages the property rests on (rule C20.S, pinned symbol table); cipher bijectivity is not decided",
          "trusts go/ssa; encoding/base64",
          "static analysis: constant-bounds vs dominating length-test rule, sibling cross-check, offset tables, store-set analysis of the decode table"),
- "C16": ("table agreement with MQTT 3.1.1 (tables transcribed from the standard inside the checker): per packet type the field layout extracted from the encoder equals the decoder's and the standard's, optional fields exactly under their flags, type codes consistent across writeHeader/Type()/dispatch, empty packets; known-bits provenance of the CONNECT flags byte and the fixed-header byte on both sides; remaining-length algorithm transcription and encodeLength on every writeHeader path; big-endian u16 and length-prefixed strings; decoder length guards not stricter than the MQTT minimum sizes; byte values at the length boundaries as such are not decided",
+ "C16": ("table agreement with MQTT 3.1.1 (tables transcribed from the standard inside the checker): per packet type the field layout extracted from the encoder equals the decoder's and the standard's, optional fields exactly under their flags, type codes consistent across writeHeader/Type()/dispatch, empty packets; known-bits provenance of the CONNECT flags byte and the fixed-header byte on both sides; remaining-length algorithm transcription and encodeLength on every writeHeader path; big-endian u16 and length-prefixed strings; decoder length guards not stricter than the MQTT minimum sizes; no unclassified mutable state added to the types/packages the property rests on (rule C16.S, pinned symbol table); byte values at the length boundaries as such are not decided",
          "the transcribed tables; go/ssa; QoS fields are 2 bits wide (property precondition)",
          "static analysis: codec layout extraction vs independent spec table, known-bits abstract interpretation, algorithm transcription check, must-pass-through"),
- "C09": ("structural necessary conditions: size check before the body allocation, bounds before slicing, clamped configuration; interprocedural tainted-size slice over every make site; recover at the per-connection root and in async.Repeat, listing of the unrecovered gossip roots; on everything reachable from those roots constant-offset accesses of wire-derived slices need a covering length test, carrier conversions are guarded at their boundaries, undecodable events are skipped; decoder error discipline; unchecked Merge assertions (two known findings); every custom DecodeTo codec returns success only after rv.Set; memory/CPU inside third-party decoders and hangs are not decided",
+ "C09": ("structural necessary conditions: size check before the body allocation, bounds before slicing, clamped configuration; interprocedural tainted-size slice over every make site; recover at the per-connection root and in async.Repeat, listing of the unrecovered gossip roots; on everything reachable from those roots constant-offset accesses of wire-derived slices need a covering length test, carrier conversions are guarded at their boundaries, undecodable events are skipped; decoder error discipline; unchecked Merge assertions (two known findings); every custom DecodeTo codec returns success only after rv.Set; option-scanner termination condition (loop-carried key/value empty on re-entry); no unclassified mutable state added to the types/packages the property rests on (rule C09.S, pinned symbol table); memory/CPU inside third-party decoders and hangs are not decided",
          "trusts go/ssa; in-scope call graph; store-derived values are trusted",
          "static analysis: tainted-size backward slice, constant-bounds vs dominating length-test rule over call-graph reachability, SSA guard cut-sets, recover-in-own-frame rule"),
 }
